@@ -194,6 +194,14 @@ def big_documents(thorough=False):
                 "\n  Given a\n   | c\x0cd | e\u2029f |\n  When b\n"))
     out.append(("same-length-rows-different-cells", "Feature: f\n Scenario: s\n  Given t\n   | name  | value |\n   | a | b | c     |\n"))
     out.append(("same-length-rows-same-cells", "Feature: f\n Scenario: s\n  Given t\n   | name  | value |\n   | a|b   | c|d|e |\n   | a\\|b  | c     |\n  And u\n   | 1 | 2 |\n   | 3 | 4 |\n   |11|22 |\n"))
+    out.append(("unexpected-line-over-2MiB", "Feature: f\n Scenario: s\n  Given x\n   | a |\n" + "y" * (2200 * 1024) + "\n  And more\n also unexpected\n  Then z\n"))
+    out.append(("examples-headers-recur", "Feature: f\n Background:\n  Given bg\n Scenario Outline: o <a> <b>\n  Given <a> <b>\n  Examples:\n   | a | b |\n   | 1 | 2 |\n  Examples:\n   | b | a |\n   | 3 | 4 |\n  Examples: header only\n   | a | b |\n  Examples:\n   | a | b |\n   | 5 | 6 |\n  Examples:\n   | b | a |\n   | 7 | 8 |\n"))
+    for n in (20, 21, 22, 40):
+        out.append(("long-background-%d-several-scenarios" % n, "Feature: f\n Background:\n  Given b0\n" + "".join("  And b%d\n" % i for i in range(1, n)) + " Scenario: one\n  And c\n  When d\n Scenario: two\n  And e\n  But g\n Scenario: three\n  * h\n  And i\n"))
+    for n in (32, 33, 34, 70):
+        out.append(("and-first-outline-%d-rows" % n, "Feature: f\n Scenario Outline: o\n  And <a>\n  But x\n  Then y\n  Examples:\n   | a |\n" + "".join("   | %d |\n" % i for i in range(n))))
+    out.append(("outline-table-numeric-cells-100-rows", "Feature: f\n Scenario Outline: o\n  Given prices <n>\n   | 140 | 40 | 9 | <n> |\n   | 1 | 91 | 914 | 0 |\n  Examples:\n   | n |\n" + "".join("   | %d |\n" % i for i in range(100))))
+    out.append(("docstring-line-3000-escapes", "Feature: f\n Scenario: s\n  Given x\n   \"\"\"\n   " + "\\\"\\\"\\\" " * 3000 + "\n   " + "\\`\\`\\`" * 1200 + "\n   \"\"\"\n  And y\n   ```\n   " + "\\`\\`\\`x" * 2500 + "\n   ```\n"))
     for n in (31, 32, 33, 40):
         rows = "".join("   | %d |\n" % i for i in range(n))
         out.append(("two-big-examples-blocks-%d" % n, "@f\nFeature: f\n @o\n Scenario Outline: o <a>\n  Given <a>\n  @first\n  Examples: one\n   | a |\n" + rows +
